@@ -557,3 +557,63 @@ func VerifC05_LinkOpsInWritingTx() {
 		verifrt.Assert(verifRawCount(eb, vFDepts) == n, "C05 no stray links after link operations in a writing transaction")
 	})
 }
+
+// VerifC05_CompoundLinks: the one-sided link primitives keyed by a compound
+// key (AddCompoundLink / RemoveCompoundLink over EncodeStringSlice, AddLinkS):
+// a list of 0..2 strings of <=1 arbitrary byte is linked after the add, a list
+// is reported linked iff it is the same list, removing a different list
+// removes nothing, and linking from a missing entity fails.
+func VerifC05_CompoundLinks() {
+	env := verifC05Env()
+	defer env.close()
+	env.createEmps("a")
+	sym := &LinkedSetSymbol{EntitySymbol: env.emp.symDepts}
+	mk := func(tag string) []string {
+		n := verifrt.Choose(tag+".len", 3)
+		l := make([]string, n)
+		for i := range l {
+			l[i] = verifrt.StringUpTo(tag, 1)
+		}
+		return l
+	}
+	x, y := mk("x"), mk("y")
+	same := len(x) == len(y)
+	if same {
+		for i := range x {
+			same = verifrt.And(same, x[i] == y[i])
+		}
+	}
+	missing := verifrt.Bool("entity.missing")
+	id := "a"
+	if missing {
+		id = "zz"
+	}
+	err := env.update(func(ctx MutateContext) error { return sym.AddCompoundLink(ctx.Tx(), id, x) })
+	verifrt.Assert((err == nil) == !missing, "C05 a compound link from a missing entity fails, any other succeeds")
+	if missing {
+		return
+	}
+	kx, errx := EncodeStringSlice(x)
+	ky, erry := EncodeStringSlice(y)
+	verifrt.Assert(errx == nil && erry == nil, "C05 compound keys encode")
+	env.view(func(tx *bbolt.Tx) {
+		verifrt.Assert(sym.IsLinked(tx, []byte("a"), kx), "C05 the compound link is present after the add")
+		verifrt.Assert(sym.IsLinked(tx, []byte("a"), ky) == same, "C05 a compound key is linked iff it is the same list")
+		verifrt.Assert(verifRawCount(env.emp.GetEntityBucket(tx, []byte("a")), vFDepts) == 1, "C05 exactly one compound link stored")
+	})
+	err = env.update(func(ctx MutateContext) error { return sym.RemoveCompoundLink(ctx.Tx(), "a", y) })
+	verifrt.Assert(err == nil, "C05 removing a compound link succeeds (also one that is not there)")
+	env.view(func(tx *bbolt.Tx) {
+		verifrt.Assert(sym.IsLinked(tx, []byte("a"), kx) == !same, "C05 removing a list removes exactly that list")
+		want := 1
+		if same {
+			want = 0
+		}
+		verifrt.Assert(verifRawCount(env.emp.GetEntityBucket(tx, []byte("a")), vFDepts) == want, "C05 link count after the removal")
+	})
+	err = env.update(func(ctx MutateContext) error { return sym.AddLinkS(ctx.Tx(), "a", "p") })
+	verifrt.Assert(err == nil, "C05 AddLinkS succeeds")
+	env.view(func(tx *bbolt.Tx) {
+		verifrt.Assert(sym.IsLinked(tx, []byte("a"), []byte("p")), "C05 AddLinkS links the plain key")
+	})
+}
